@@ -3,7 +3,7 @@
 # property it breaks (quick tier), undo it straight afterwards. Writes seeded/<id>/repo_run.json.
 cd /verif
 for d in seeded/C*; do
-  id=$(basename $d); prop=${id%-*}
+  id=$(basename $d); prop=${id:0:3}
   [ -f $d/repo_run.json ] && continue
   git -C /repo apply $PWD/$d/patch.diff || { echo "{\"applies\": false}" > $d/repo_run.json; git -C /repo checkout -- .; continue; }
   t0=$(date +%s)
